@@ -236,6 +236,13 @@ func c09Run(c *Ctx, cs c09Case, keepCT map[string][]byte) {
 		r.Count("remote_name_beyond_255_logins", 1)
 		return
 	}
+	if cs.Variant == "remote-too-long" {
+		if res.err == nil {
+			fail("too-long-password-accepted", "a remote server password beyond the key capacity cannot be encrypted, Login returned nil")
+		}
+		r.Count("remote_password_beyond_capacity_logins", 1)
+		return
+	}
 	if cs.Variant == "too-long" {
 		if res.err == nil {
 			fail("too-long-password-accepted", "a password beyond the key capacity cannot be encrypted, Login returned nil")
@@ -536,6 +543,14 @@ func runC09(c *Ctx) {
 		}
 		cases = append(cases, c09Case{PwHex: hex.EncodeToString([]byte("acc0unt-Secret")), PwClass: "long-remote-server-name", User: "sa", NonceLen: 16, KeyBits: 1024, Variant: v, CutClass: "one-packet",
 			Remotes: []string{strings.Repeat("N", l), "REM1"}, RemPwHex: []string{hex.EncodeToString([]byte("remote-secret-A")), hex.EncodeToString([]byte("remote-secret-B"))}})
+	}
+	// a REMOTE password beyond the key capacity while the account password
+	// fits: the login fails client-side, and its error text is searched
+	for _, bits := range keySizes {
+		capacity := bits/8 - 42
+		nl := 16
+		cases = append(cases, c09Case{PwHex: hex.EncodeToString([]byte("acc0unt-Secret")), PwClass: "remote-password-beyond-key-capacity", User: "sa", NonceLen: nl, KeyBits: bits, Variant: "remote-too-long", CutClass: "one-packet",
+			Remotes: []string{"REM0", "REM1"}, RemPwHex: []string{hex.EncodeToString([]byte("remote-secret-A")), hex.EncodeToString(alpha(capacity - nl + 6))}})
 	}
 	// key capacity and capacity+1
 	for _, bits := range keySizes {
